@@ -5,7 +5,7 @@ import ast
 
 import z3
 
-from .engine import BoundMethod, ClassVal, Closure, SDict
+from .engine import BoundMethod, ClassVal, Closure, PairList, SDict
 from .source import Extern, FuncDef
 from .state import RaiseEx
 from .types import (
@@ -60,6 +60,8 @@ class BuiltinMixin:
         (v,) = args
         if isinstance(v, (tuple, list, str, bytes)):
             return len(v)
+        if isinstance(v, PairList):
+            return len(v.pairs)
         if isinstance(v, SDict):
             if all(z3.is_true(z3.simplify(p)) for p, _ in v.items.values()):
                 return len(v.items)
@@ -365,6 +367,14 @@ class BuiltinMixin:
 
     # ---------------- methods of built-in types ----------------
     def builtin_method(self, selfv, name, args, kwargs, node, self_expr):
+        if isinstance(selfv, PairList):
+            if name == "items":
+                return [(k, v) for k, v in selfv.pairs]
+            if name == "keys":
+                return [k for k, _ in selfv.pairs]
+            if name == "values":
+                return [v for _, v in selfv.pairs]
+            raise Unsupported(f"dict.{name} on a symbolic-key literal")
         if isinstance(selfv, SDict):
             return self.sdict_method(selfv, name, args, kwargs, node, self_expr)
         if isinstance(selfv, _EmptySet):
